@@ -244,8 +244,53 @@ def _single_request_and_result(ex, st, post, result):
                'a tile found cached by the re-check is loaded from the cache (cache.load_tile(tile)) and returned as [tile]')
 
 
+def _recheck_looks_at_the_cache(ex, st, post, result):
+    """C08: the re-check under the lock must see what another holder of the lock stored meanwhile.  The requested tile object can
+    carry an expired copy loaded before the lock was taken, and several backends (sqlite, mbtiles, s3 ...) answer is_cached /
+    load_tile_metadata for a tile that has bytes without reading the cache again: the object that is re-checked is therefore a
+    fresh Tile of the same address (S41)"""
+    import z3
+    from pyvc.values import eq
+    tile = post.env['tile']
+    checks = [(i, e) for i, e in T.evs(st, 'is_cached') if T.held(e)]
+    made = [(i, e) for i, e in T.evs(st, 'Tile')]
+    ok = len(checks) >= 1
+    g = z3.BoolVal(bool(ok))
+    if ok:
+        i0, c0 = checks[0]
+        a = [x for x in c0.args if x is not c0.recv]
+        src = [m for j, m in made if j < i0 and a and a[0] is m.result]
+        ok2 = len(a) >= 1 and a[0] is not tile and len(src) == 1 and len(src[0].args) == 1 and not src[0].kwargs
+        g = z3.BoolVal(bool(ok2))
+        if ok2:
+            g = z3.And(g, eq(src[0].args[0], ex.opaque_field_at(st, src[0], tile, 'coord')))
+    yield ('recheck_under_lock_reads_the_cache', g,
+           'the object re-checked under the lock is a fresh Tile(tile.coord) - never the requested tile object with the copy it '
+           'was given before the lock was taken')
+
+
+def _new_source_gets_own_validators(ex, st, post, result):
+    """C20/C13: time stamp and size loaded from a replaced (expired) version do not describe the new source"""
+    import z3
+    from pyvc.values import VNone
+    tile = post.env['tile']
+    qs = [e for i, e in T.evs(st, '_query_sources')]
+    sets = [(i, e) for i, e in enumerate(st.trace) if e.name == 'setattr:source' and e.recv is not None and hasattr(tile, 't') and e.recv.t.eq(tile.t)]
+    g = z3.BoolVal(True)
+    for i, e in sets:
+        later = st.trace[i:]
+        cleared = all(any(x.name == 'setattr:' + a and x.recv is not None and x.recv.t.eq(tile.t) and isinstance(x.args[1], VNone)
+                          and not any(y.name in ('store_tile', 'load_tile') for y in later[:later.index(x)])
+                          for x in later) for a in ('timestamp', 'size'))
+        g = z3.And(g, z3.BoolVal(bool(cleared)))
+    yield ('new_source_gets_validators_of_its_own', g,
+           'whenever the tile gets another source (the upstream answer, or - after the re-check found it cached - whatever the '
+           'cache holds now) its timestamp and size are reset before the tile is stored / loaded: a rewritten tile is never '
+           'answered with the Last-Modified / ETag of the version it replaces')
+
+
 _cs = __import__('pyvc.api', fromlist=['REG']).REG.contracts[C + 'TileCreator._create_single_tile']
-_cs['trace'] = list(_cs['trace']) + [_single_request_and_result]
+_cs['trace'] = list(_cs['trace']) + [_single_request_and_result, _recheck_looks_at_the_cache, _new_source_gets_own_validators]
 
 
 def recheck_decides(fetch_event):
